@@ -321,6 +321,8 @@ def check_rwp(line, meta, h, d, dq, stats):
     if ht[2] != "u1-in-range":
         return [("prop", "assumption-u1-range", "the draw u1 is not in (0, 1/(N-k)): %s" % ht[3])]
     k_exact = math.floor(n * ratio)
+    kk = "rwp_k_zero" if k_twin == 0 else "rwp_k_positive"
+    stats[kk] = stats.get(kk, 0) + 1
     if k_exact != k_twin:
         stats["floor_of_rounded_product_differs"] = stats.get("floor_of_rounded_product_differs", 0) + 1
     m = n - k_twin
@@ -446,14 +448,23 @@ def run(ctx):
     n_rwp = ctx.n(700, 6000)
     cases = []
     corpus = vlib.VERIF / "corpus" / "C07" / "cases.txt"
-    if corpus.exists():
+    replay_line = None
+    if ctx.replay:
+        import json
+        replay_line = json.load(open(ctx.replay)).get("replay", {}).get("input_line")
+    if replay_line:
+        t = replay_line.split()
+        cases.append((replay_line, {"op": t[0], "style": "replay", "n": int(t[2]), "quat": int(t[5]), "circ": int(t[4])}))
+        n_rs = n_rwp = 0
+    elif corpus.exists():
         for ln in corpus.read_text().split("\n"):
             ln = ln.strip()
             if ln and not ln.startswith("#"):
                 cases.append((ln, {"op": ln.split()[0], "style": "corpus", "n": int(ln.split()[2]), "quat": int(ln.split()[5]), "circ": int(ln.split()[4])}))
-    cases += boundary_cases(binary, r, ctx.n(6, 40))
+    if not replay_line:
+        cases += boundary_cases(binary, r, ctx.n(6, 40))
     # exhaustive small: N = 1..3, uniform / one-hot at each position
-    for n in (1, 2, 3):
+    for n in (() if replay_line else (1, 2, 3)):
         for hot in range(-1, n):
             w = [-math.log(n)] * n if hot < 0 else [0.0 if i == hot else NEG_INF for i in range(n)]
             cases.append(("rs %d %d 1 1 0 %s" % (r.randrange(1, 2 ** 32), n, " ".join(hexd(x) for x in w)), {"op": "rs", "style": "small", "n": n, "quat": 0, "circ": 1}))
